@@ -5,7 +5,7 @@ From Coq Require Import List ZArith Lia.
 Import ListNotations.
 From Gen Require Import SelGen.
 From Model Require Import Key Sel GFI GFIEdit Derived.
-From Proofs Require Import GFIBase GFIRef GFIWf GFIConsistent GFIProject GFISim GFIGen GFIEditProofs GFIEditChoices GFIDerived GFICombinators.
+From Proofs Require Import GFIBase GFIRef GFIWf GFIConsistent GFIProject GFISim GFIGen GFIEditProofs GFIEditChoices GFIDerived GFICombinators GFIRoundtripAll.
 Open Scope Z_scope.
 
 Theorem C05_update_arguments_and_weight : forall g k t c a tg t' w b,
@@ -24,6 +24,26 @@ Proof.
   intros Hn. apply Hk. simpl. rewrite Hn. reflexivity.
 Qed.
 Print Assumptions C05_update_choices.
+
+(* "The returned backward constraint holds the previous values at the overwritten addresses": for programs without
+   mask and switch the backward request is a constraint bc, and every choice of the ORIGINAL trace either is held by
+   bc (with its previous value) or still has that value in the new trace — so nothing that was overwritten is lost.
+   (That applying bc gives back exactly the original trace is C06_update_roundtrip.) *)
+Theorem C05_backward_holds_the_previous_values : forall g k t c a tg t' w b,
+  wfg g -> simple g -> wft g t -> edit g k t (RUpdate c) a tg = Ok (t', w, b) ->
+  exists bc, b = RUpdate bc /\
+    Forall (fun tm => agrees_at bc tm /\
+                      (con bc tm = false -> leafval (t_choices t') (tm_path tm) = Some (tm_val tm))) (t_terms t).
+Proof.
+  intros g k t c a tg t' w b Hg Hs Hw H.
+  destruct (update_roundtrip g k t c a tg t' w b Hg Hs Hw H) as [bc [Hb Hr]]. exists bc. split; [exact Hb|].
+  destruct (Hr k tg) as [b' Hback]. subst b.
+  destruct (edit_ok g k t (RUpdate c) a tg t' w (RUpdate bc) Hg I Hw H) as [Hw' _].
+  pose proof (edit_choices g k t' (RUpdate bc) (t_args t) tg t (- w) b' Hg I Hw' Hback) as Hc.
+  unfold ChOk in Hc. eapply Forall_impl; [|exact Hc]. intros tm [Hi Hk]. split; [exact Hi|].
+  intros Hn. apply Hk. simpl. rewrite Hn. reflexivity.
+Qed.
+Print Assumptions C05_backward_holds_the_previous_values.
 
 (* sequences of updates: the trace stays an execution of the program and the weights telescope *)
 Fixpoint run_updates (g : gf) (k : key) (t : trace) (us : list (chm * list val * list tagt)) : res (trace * Z) :=
